@@ -19,6 +19,10 @@ type execFunc func(o Op) string
 var generators = map[string]genFunc{}
 var executors = map[string]execFunc{}
 
+// children are sub-commands an executor runs in a process of its own, so that a call that does not
+// return can be abandoned (and its goroutines killed) after a deadline.
+var children = map[string]func(args []string){}
+
 func main() {
 	if len(os.Args) < 2 {
 		fmt.Fprintln(os.Stderr, "usage: harness gen|exec ...")
@@ -68,6 +72,10 @@ func main() {
 			w.Flush()
 		}
 	default:
+		if f, ok := children[os.Args[1]]; ok {
+			f(os.Args[2:]) // helper process of an executor (killed by its parent on a deadline)
+			return
+		}
 		fmt.Fprintln(os.Stderr, "unknown command")
 		os.Exit(2)
 	}
